@@ -219,7 +219,7 @@ def build(tier):
     if left:
         raise vf.Undecided("c07 template placeholders left: %s" % left[:5])
     u = vf.KaniUnit("c07_constprop", {"src/lib.rs": src, "src/vm_alu.rs": open(vf.ROOT + "/spec/vm_alu.rs").read()}, obs,
-                    deps={"either": "1"}, timeout_s=1800 if tier == "quick" else 3600, jobs=8, auto_files=[CP])
+                    deps={"either": "1"}, timeout_s=1800 if tier == "quick" else 3600, jobs=8 if tier == "quick" else 5, auto_files=[CP])
     u.fragments = [vf.frag_record(v) for k, v in fr.items()]
     u.rewrites = rewrites + [{"rule": "R1", "before": "derives/visibility of extracted enums, structs, consts", "after": "plain derives, pub", "times": 15},
                              {"rule": "slice", "before": "use-register loop (loop #2 of constant_propagate) and the JNZ rewrite (text between that loop and the macro)", "after": "copied by byte offsets", "times": 2}]
